@@ -288,12 +288,47 @@ def all_models(tier):
     return c03.models(tier) + c03.unit_root_models(tier)
 
 
+def check_after_reparameterisation(spec, N, res, ctx):
+    """a HISTORY on one model object: solved and filtered (in deviation and in level mode) under one parameterisation,
+    then given other coefficients, steady() and solve() again - everything the filter returns afterwards belongs to
+    the new parameterisation (judged by the full set of oracles on the all-observed mask and on one mask with gaps)"""
+    spec_b = c03.scaled(spec, 0.9)
+    if spec_b.classify()["kind"] != "determinate" or spec_b.classify().get("num_unit", 0) != spec.classify().get("num_unit", 0):
+        res.exclude("reparameterisation_not_determinate")
+        return
+    ny = len(spec.meas)
+    with contextlib.redirect_stdout(io.StringIO()):
+        m = c03.build(spec)
+        m.assign(**c03.std_settings(spec, N, ctx.seed)[0][1])
+        full = np.ones((ny, N), dtype=bool)
+        ss0 = spec.steady()
+        for dev in (True, False):
+            lev = np.zeros((ny, N)) + (0.0 if dev or ss0 is None else 1.0)
+            try:
+                c03.Filtered(spec, m, np.exp(lev * 0.1) if spec.log else lev, full, N, dev, False, None)
+            except Exception:
+                pass
+        m.assign(**spec_b.param_values())
+        m.steady()
+        m.solve()
+    res.count("reparameterised_objects_checked")
+    masks = [full]
+    gap = full.copy()
+    gap[0, N // 2] = False
+    masks.append(gap)
+    for mask in masks:
+        check_config(spec_b, m, N, False, res, ctx, only_mask=mask)
+        check_config(spec_b, m, N, True, res, ctx, only_mask=mask)
+
+
 def shard(item, res, ctx):
     spec = linre.LinSpec.from_json(item["spec"])
     m = c03.build(spec)
     m.assign(**c03.std_settings(spec, item["N"], ctx.seed)[0][1])
     check_config(spec, m, item["N"], item["dev"], res, ctx)
     check_shocks_from_data(spec, m, item["N"], item["dev"], res, ctx)
+    if item["N"] == 3 and not item["dev"]:
+        check_after_reparameterisation(spec, 3, res, ctx)
 
 
 def run(ctx, total, info):
@@ -309,7 +344,8 @@ def run(ctx, total, info):
     info["exhaustive"] = True
     info["floors"] = {"cases": (len(total.nontrivial), 800), "shocks_from_data_runs": (total.counters.get("shocks_from_data_runs", 0), 60),
                       "deviation_vs_level_unit_root": (total.counters.get("deviation_vs_level_unit_root", 0), 300),
-                      "smoother_alone_runs": (total.counters.get("smoother_alone_runs", 0), 3000)}
+                      "smoother_alone_runs": (total.counters.get("smoother_alone_runs", 0), 3000),
+                      "reparameterised_objects_checked": (total.counters.get("reparameterised_objects_checked", 0), 10)}
 
 
 def replay(case):
